@@ -818,4 +818,76 @@ def item_c10_values(repo, out):
     # values (checked by item_c10_s2c: `sensor_values[n] != sensor_values[n - 1]`, `value in greedy_values`)
 
 
-ITEMS = [item_c10_generator, item_c10_s2c, item_c10_catdata, item_c10_extract, item_c10_tables, item_c10_values]
+# --------------------------------------------------------------------------------------------- who writes into what
+# The conversion must leave the getter's raw samples alone (they are shared with aliases and read again by every later
+# conversion).  For the three functions on the path from SensorCache.get to the CategoricalData the NAMES whose objects
+# are written in place (subscript / attribute stores, augmented assignments, in-place methods, out= arguments) are
+# regenerated; Model/SensorToCatHist.v decides from them whether a conversion writes into the samples it was given
+# (any name that can alias them) and the history theorems are proved of THAT machine.
+
+_INPLACE_METHODS = ('sort', 'fill', 'put', 'resize', 'itemset', 'setfield', 'partition', 'byteswap', 'setflags',
+                    '__setitem__', '__iadd__', '__setattr__', 'update', 'clear', 'pop', 'remove', 'insert', 'extend',
+                    'reverse', 'setdefault', 'append', 'copyto', 'place', 'putmask', 'put_along_axis', 'fill_diagonal')
+
+
+def _base_name(node):
+    while isinstance(node, (ast.Attribute, ast.Subscript, ast.Call)):
+        node = node.func if isinstance(node, ast.Call) else node.value
+    return node.id if isinstance(node, ast.Name) else '?'
+
+
+def _stores(fn):
+    """Sorted names of the objects a function (nested functions included) writes INTO."""
+    names = set()
+
+    def target(t):
+        if isinstance(t, (ast.Tuple, ast.List)):
+            for e in t.elts:
+                target(e)
+        elif isinstance(t, ast.Starred):
+            target(t.value)
+        elif isinstance(t, (ast.Attribute, ast.Subscript)):
+            names.add(_base_name(t))
+    for n in ast.walk(fn):
+        if isinstance(n, ast.Assign):
+            for t in n.targets:
+                target(t)
+        elif isinstance(n, ast.AnnAssign):
+            target(n.target)
+        elif isinstance(n, ast.AugAssign):
+            names.add(_base_name(n.target))          # `x += ...` writes into the array x is bound to
+        elif isinstance(n, (ast.Delete,)):
+            for t in n.targets:
+                target(t)
+        elif isinstance(n, (ast.For, ast.AsyncFor)):
+            target(n.target)
+        elif isinstance(n, ast.Call):
+            if isinstance(n.func, ast.Attribute) and n.func.attr in _INPLACE_METHODS:
+                if _base_name(n.func) in ('np', 'numpy') and n.args:
+                    names.add(_base_name(n.args[0]))
+                else:
+                    names.add(_base_name(n.func))
+            if isinstance(n.func, ast.Name) and n.func.id in ('setattr', 'delattr') and n.args:
+                names.add(_base_name(n.args[0]))
+            for k in n.keywords:
+                if k.arg == 'out':
+                    names.add(_base_name(k.value))
+    return sorted(names)
+
+
+def item_c10_purity(repo, out):
+    cat, sd = _parse(repo, CAT), _parse(repo, SD)
+    out.append('(* names of the objects written in place by the conversion path (katdal/categorical.py, sensordata.py) *)')
+    for name, fn in (('c10_s2c_stores', _module_func(cat, 'sensor_to_categorical', CAT)),
+                     ('c10_extract_stores', _method(sd, 'SensorCache', '_extract', SD)),
+                     ('c10_clean_stores', _module_func(sd, 'remove_duplicates_and_invalid_values', SD)),
+                     ('c10_wrapper_init_stores', _method(cat, 'ComparableArrayWrapper', '__init__', CAT))):
+        st = _stores(fn)
+        out.append('Definition %s : list string := [%s].' % (name, '; '.join(coq_string(x) for x in st)))
+    # SimpleSensorGetter.get hands out the getter's own SensorData (no copy): that is why the path must not write
+    g = _method(sd, 'SimpleSensorGetter', 'get', SD)
+    if [_txt(x) for x in g.body if not (isinstance(x, ast.Expr) and isinstance(x.value, ast.Constant))] != ['return self._data']:
+        raise TranslateError('SimpleSensorGetter.get: is not `return self._data`')
+
+
+ITEMS = [item_c10_generator, item_c10_s2c, item_c10_catdata, item_c10_extract, item_c10_tables, item_c10_values, item_c10_purity]
